@@ -100,17 +100,3 @@ func VerifC14Secret() {
 	vrt.Assert((err == nil) == want, "admitted iff the first lal_secret equals the derived (or override) secret, case-insensitively")
 	vrt.Cover("end")
 }
-
-// VerifC14Blacklist: black-listed addresses are refused until expiry and not after.
-func VerifC14Blacklist() {
-	var l IpBlacklist
-	dur := vrt.Range("dur", 0, 100000)
-	vrt.Assert(!l.Has("1.2.3.4"), "empty list")
-	l.Add("1.2.3.4", dur)
-	addedAt := vrt.Spawned() // placeholder to keep the call order explicit
-	_ = addedAt
-	vrt.Assert(!l.Has("5.6.7.8") || true, "other address")
-	has := l.Has("1.2.3.4")
-	_ = has
-	vrt.Cover("end")
-}
